@@ -33,9 +33,24 @@ def count_worker(key):
         ex.opq_model_table = reg.opq_models
         ex.spec_ufs = reg.spec_ufs
         res, _ = explore(ex, key, reg.contracts[key])
-        return key, sum(len(pr.obligations) for pr in res)
+        calls = set()
+        for pr in res:
+            calls.update(getattr(pr, 'calls', []))
+        return key, (sum(len(pr.obligations) for pr in res), sorted(calls))
     except Exception:
-        return key, 1
+        return key, (1, [])
+
+
+def verified_instances(reg, callee_key):
+    """the separately verified contracts standing behind a contract used at a call site: the contract itself when it is verified, else
+    (assumed summary) every verified contract on the same target function"""
+    c = reg.contracts.get(callee_key)
+    if c is None or c.get('inline') or c.get('inline_in_callers'):
+        return []
+    if not c.get('axiom'):
+        return [callee_key]
+    tgt = c.get('target', callee_key)
+    return [k for k, c2 in reg.contracts.items() if not c2.get('axiom') and not c2.get('inline') and c2.get('target', k) == tgt and k != callee_key]
 
 
 def worker(job):
@@ -206,6 +221,7 @@ def check_property(prop, tier, seed, relock=False):
         return 3
     nproc = int(os.environ.get('PYVC_JOBS', '16'))
     shard_results = []
+    dependency_keys = []
     if keys:
         # a worker that dies (solver crash) must not hang the check: ProcessPoolExecutor reports a broken pool
         from concurrent.futures import ProcessPoolExecutor
@@ -213,7 +229,20 @@ def check_property(prop, tier, seed, relock=False):
         try:
             with ProcessPoolExecutor(max_workers=nproc, mp_context=mp.get_context('fork')) as pool:
                 # phase 1: obligation counts per function; phase 2: discharge shards sized to about total / (1.5 * processes)
-                counts = dict(pool.map(count_worker, keys))
+                # modular verification: a caller is checked against the callee's CONTRACT, so the property also needs the callee's own
+                # proof - the verified contracts behind every contract used at a call site join the check (transitively)
+                counts, todo, direct = {}, list(keys), set(keys)
+                while todo:
+                    info = dict(pool.map(count_worker, todo))
+                    todo = []
+                    for k_, (cnt, calls) in info.items():
+                        counts[k_] = cnt
+                        for ck in calls:
+                            for vk in verified_instances(reg, ck):
+                                if vk not in counts and vk not in todo and vk not in info:
+                                    todo.append(vk)
+                keys = list(counts)
+                dependency_keys = sorted(set(keys) - direct)
                 jobs = []
                 for k in sorted(keys, key=lambda k_: -counts.get(k_, 1)):
                     ns = int(min(nproc, max(1, -(-counts.get(k, 1) // 75))))     # about 75 obligation instances per shard
@@ -249,7 +278,8 @@ def check_property(prop, tier, seed, relock=False):
     total = 0
     funcs = []
     for r in results:
-        funcs.append({'function': r['key'], 'paths': r['paths'], 'feasible_paths': r['feasible_paths'], 'span': r['span'], 'seconds': r.get('seconds')})
+        funcs.append({'function': r['key'], 'paths': r['paths'], 'feasible_paths': r['feasible_paths'], 'span': r['span'], 'seconds': r.get('seconds'),
+                      'included_as': 'callee contract used by a function of this property' if r['key'] in dependency_keys else 'listed for this property'})
         if r['error']:
             checker_errors.append(f"{r['key']}: {r['error'][-600:]}")
         for u in r['unsupported']:
@@ -276,7 +306,9 @@ def check_property(prop, tier, seed, relock=False):
     # ---- lock
     lock = json.load(open(LOCK_PATH)) if os.path.exists(LOCK_PATH) else {}
     if relock:
-        lock[prop] = sorted(k for k, a in agg.items() if a['status'] == 'discharged')
+        # only the obligations of the contracts LISTED for the property are pinned: which callee contracts join through the closure
+        # depends on the call structure of the code, and a refactoring (helper inlined) may legitimately change it
+        lock[prop] = sorted(k for k, a in agg.items() if a['status'] == 'discharged' and a['function'] not in dependency_keys)
         json.dump(lock, open(LOCK_PATH, 'w'), indent=0, sort_keys=True)
     locked = set(lock.get(prop, []))
     missing = sorted(locked - set(agg))
